@@ -28,12 +28,16 @@ struct Plan {
 }
 
 fn gen_plan(ch: &mut Ch) -> Plan {
-    let expiry = match ch.weighted(&[35, 20, 20, 15, 10], "e.expiry") {
+    let expiry = match ch.weighted(&[35, 18, 18, 12, 7, 4, 3, 3], "e.expiry") {
         0 => (20 + ch.below(41, "e.expiry.ms")) * MS,
         1 => SEC,
         2 => 120 * SEC,
         3 => 3600 * SEC,
-        _ => 49 * 24 * 3600 * SEC,
+        4 => 49 * 24 * 3600 * SEC,
+        // beyond 2^32 milliseconds (49.7 days), and a fractional second
+        5 => 60 * 24 * 3600 * SEC,
+        6 => 400 * 24 * 3600 * SEC,
+        _ => 1900 * MS,
     };
     let upload = ch.below(2, "e.upload") == 1;
     let szx = ch.below(3, "e.szx") as u8;
@@ -60,7 +64,7 @@ fn gen_plan(ch: &mut Ch) -> Plan {
             4 => expiry,
             5 => expiry + 1,
             6 => expiry.saturating_mul(4),
-            7 => expiry.saturating_mul(1000).min(200 * 24 * 3600 * SEC),
+            7 => expiry.saturating_mul(1000).min(2000 * 24 * 3600 * SEC).max(expiry.saturating_mul(2)),
             8 => expiry - 1 - ch.below((expiry / 4).max(1), "e.gap.below"),
             // every individual gap below the expiry, total far above it
             _ => expiry * 6 / 10,
